@@ -121,7 +121,7 @@ def parse_ref(text):
 
 def units(tier, seed):
     us = [('print',), ('pairs',), ('wellformed',), ('malformed',)]
-    for i in range(12 if tier == 'quick' else 64):
+    for i in range(12 if tier == 'quick' else 640):
         us.append(('random', i))
     return us
 
